@@ -1,4 +1,5 @@
 import SynRBLModel.Proofs.Batching
+import SynRBLModel.Proofs.StatsDict
 /-!
 # C06 — a reaction's result does not depend on its batch context
 -/
@@ -51,5 +52,12 @@ theorem C06_stats_permutation (cfg : Config) (xs ys : List InRow) (h : xs.Perm y
       unfold sumStats; simp [RowStats.zero_add]
     rw [e, e, RowStats.add_comm y x]
   | trans _ _ ih1 ih2 => rw [ih1, ih2]
+
+/-- **C06 (statistics dictionary).** Under every key the caller's statistics dictionary holds the same value for any two
+batch sizes — although the batches report different key sets and `merge_stats` adopts keys in the order batches
+introduce them. -/
+theorem C06_stats_dict_batch_size_independent (cfg : Config) (n m : Nat) (hn : 1 ≤ n) (hm : 1 ≤ m) (rows : List InRow)
+    (k : Key) : Dict.val (rebalanceDict cfg n rows) k = Dict.val (rebalanceDict cfg m rows) k := by
+  rw [rebalanceDict_val, rebalanceDict_val, C06_stats_batch_size_independent cfg n m hn hm rows]
 
 end SynRBL
